@@ -366,6 +366,8 @@ func checkC13(c *Ctx) Meta {
 	c.Rule("C13-PAIR", "every lock the keeper, its engines and the plot database take explicitly is released on every path to a return of the same function (deferred, or an Unlock before each return): an early return that skips the Unlock blocks every later request on stateLock forever", 20)
 	checkLockPairing(c, "C13-PAIR", []string{pkgCapacity, pkgSkchia, pkgMassDBV1, pkgEngine, pkgEngineV2})
 	c.Rule("C13-POP", "the plotter queue's heap is popped only under the queue mutex behind a non-emptiness test in the same lock hold, and items popped from the shared queue are nil-tested before use", 8)
+	c.Rule("C13-WAIT", "the keeper, its plotter and the plot databases wait for time only in a way a stop can end: a time.Sleep inside a loop is accepted only if an exit of the loop is governed by a counter, a channel operation or a stop flag (a loop that sleeps until an outside condition changes blocks StopPlot and the keeper's stop for as long as the condition lasts)", 4)
+	checkStoppableWaits(c, "C13-WAIT", []string{pkgCapacity, pkgSkchia, pkgMassDBV1, repoMod + "/poc/engine.v2/massdb/massdb.chiapos"})
 	c.Rule("C13-QUEUE", "the plotter queue's heap is accessed only under the queue mutex by code that can run concurrently with the keeper API", 2)
 
 	scopePkgs := map[string]bool{pkgCapacity: true, pkgSkchia: true, pkgMassDBV1: true, pkgEngine: true, pkgEngineV2: true,
@@ -993,6 +995,47 @@ func checkPopGuard(c *Ctx, pkg, label string, li *lockInfo) {
 	rule := "C13-POP"
 	qType := pkg + ".plotterQueue"
 	prque := "(*gopkg.in/karalabe/cookiejar.v2/collections/prque.Prque)."
+	// (3) who may forget the popped item: Reset() also sets poppedItem = nil, and PlotWS / MineWS / StopWS use
+	// queue.PoppedItem() without a nil test while a space is in the plotting index. Reset of the keeper's shared
+	// queue is therefore confined to the two places where no plot can be running: the configuration step
+	// (applyConfiguredWorkSpaces, refused while the keeper is started) and the plotter itself (on its way out).
+	{
+		short := strings.TrimPrefix(pkg, repoMod+"/")
+		allowed := map[*ssa.Function]bool{}
+		for _, name := range []string{"(*SpaceKeeper).applyConfiguredWorkSpaces", "(*SpaceKeeper).spacePlotter"} {
+			if f := c.Fn(short, name); f != nil {
+				for _, g := range bodyFns(f, nil) {
+					allowed[g] = true
+				}
+			}
+		}
+		var fns []*ssa.Function
+		for fn := range c.AllFuncs {
+			if pkgOf(outermost(fn)) == pkg {
+				fns = append(fns, fn)
+			}
+		}
+		sort.Slice(fns, func(i, j int) bool { return FuncName(fns[i]) < FuncName(fns[j]) })
+		n := 0
+		for _, fn := range fns {
+			for _, rs := range callsInShallow(fn, "(*"+qType+").Reset") {
+				t, f, _, ok := fieldOfValue(callRecv(rs))
+				if !ok || f != "queue" || !strings.HasSuffix(t, ".SpaceKeeper") {
+					continue // a queue of its own (the temporary ordering queue)
+				}
+				n++
+				key := label + ":" + FuncName(outermost(fn)) + ":shared-queue-reset"
+				if allowed[fn] || allowed[outermost(fn)] {
+					c.OK(rule, key, c.Pos(rs.Pos()), "Reset of the shared queue in the configuration step / at the plotter's exit")
+				} else {
+					c.Bad(rule, key, c.Pos(rs.Pos()), "the keeper's shared plotter queue is Reset() outside the configuration step and the plotter's exit: Reset also forgets the popped item, and PlotWS / MineWS / StopWS dereference queue.PoppedItem() without a nil test while a space is plotting (nil dereference in an API goroutine)")
+				}
+			}
+		}
+		if n == 0 {
+			c.Bad(rule, label+":shared-queue-reset-anchor", "", "reason=anchor-missing: no Reset of the shared queue found (the census of who may forget the popped item has nothing to examine)")
+		}
+	}
 	for fn := range c.AllFuncs {
 		if pkgOf(fn) != pkg {
 			continue
